@@ -738,6 +738,160 @@ func typeDirected(c *Ctx) {
 	}
 }
 
+// ---------------------------------------------------------------- nested counted loops (register stack)
+// A named counted loop `for v = N {body}` keeps v in a register when the body can be rewritten, and in a plain
+// variable when it cannot (v++, --v, v(...), assignment to v, a function literal in the body ...).  Registers are a
+// stack per environment: every way out of every loop, rewritable or not, must leave it balanced, otherwise an
+// enclosing / following loop panics in ReleaseRegister / MakeRegister.  The generator nests loops of both sorts.
+var loopVars = []string{"i", "j", "k", "l", "m"}
+
+// bodies for a loop whose variable is v; o is an outer loop variable (or a literal at depth 0)
+func loopBodies(v, o string) (rewritable, notRewritable, control []string) {
+	rewritable = []string{v, "s = s + " + v, "if " + v + " > 0 {" + v + "}", "[" + v + "," + o + "]", v + " + " + o,
+		"t = {" + v + ":" + o + "}", "println(" + v + ")", "-" + v, "x = " + v + " * " + o, ""}
+	notRewritable = []string{v + "++", v + "--", "--" + v, "++" + v, v + "(1)", v + "()", v + " = 5", v + " := 7", v + " = " + v + " + 1",
+		"f = func(){" + v + "}", "g = () => " + v, "func(" + v + "){" + v + "}", "(" + v + " => " + v + ")(" + o + ")", v + "[0]", v + ".a", "del(" + v + ")",
+		o + "++", "--" + o, o + " = 0", "quote(" + v + ")", "for " + v + " = 2 {" + v + "++}"}
+	control = []string{"break", "continue", "return " + v, "return", "if " + v + " == 1 {break}", "if " + v + " == 0 {continue}; " + v,
+		"if " + v + " == 1 {return " + o + "}", "1/0", "nosuchident", "error(\"e\")", v + "++; break", "break; " + v + "++"}
+	return
+}
+
+func loopHeader(r *Rng, v string, n int) string {
+	switch r.Intn(6) {
+	case 0:
+		return fmt.Sprintf("for %s = %d:%d", v, r.Intn(2), n+1)
+	case 1:
+		return fmt.Sprintf("for %s := %d", v, n)
+	case 2:
+		return fmt.Sprintf("for %d", n) // unnamed counted loop: no register of its own
+	default:
+		return fmt.Sprintf("for %s = %d", v, n)
+	}
+}
+
+// nest builds `hdr { pre; <inner>; post }` for the given depth; leaf picks the innermost body
+func nestLoops(r *Rng, depth int, leaf func(v, o string) string, sameVar bool) string {
+	var rec func(d int, outer string) string
+	rec = func(d int, outer string) string {
+		v := loopVars[d%len(loopVars)]
+		if sameVar && r.Pct(50) && d > 0 {
+			v = loopVars[(d-1)%len(loopVars)]
+		}
+		hdr := loopHeader(r, v, 2+r.Intn(2))
+		var inner string
+		if d == depth-1 {
+			inner = leaf(v, outer)
+		} else {
+			inner = rec(d+1, v)
+		}
+		rw, nrw, ctl := loopBodies(v, outer)
+		pick := func() string {
+			switch r.Intn(10) {
+			case 0, 1, 2, 3:
+				return rw[r.Intn(len(rw))]
+			case 4, 5:
+				return nrw[r.Intn(len(nrw))]
+			case 6:
+				return ctl[r.Intn(len(ctl))]
+			}
+			return ""
+		}
+		parts := []string{}
+		for _, x := range []string{pick(), inner, pick()} {
+			if x != "" {
+				parts = append(parts, x)
+			}
+		}
+		return hdr + " { " + strings.Join(parts, "; ") + " }"
+	}
+	return rec(0, "1")
+}
+
+func loopPlacements(body string) []string {
+	return []string{
+		"s = 0; " + body,
+		"s = 0; " + body + "; " + body, // twice in one environment: a leaked register shows on the second run
+		"s = 0; func lf(){ " + body + " }; lf()",
+		"s = 0; func lf(n){ " + body + "; n }; lf(3); lf(4)",
+		"s = 0; lg = (a, b) => { " + body + "; a + b }; lg(1, 2)",
+		"s = 0; func lf(n){ if n <= 0 {return 0}; " + body + "; lf(n - 1) }; lf(3)",
+		"s = 0; for q = 3 { " + body + " }; for q = 2 { q }",
+	}
+}
+
+func nestedLoops(c *Ctx) {
+	o := evalOpts{maxDepth: 200, dur: 40 * time.Millisecond}
+	// exhaustive: depth 2, every (outer extra statement sort) x every inner body, two header forms, all placements
+	rwO, nrwO, ctlO := loopBodies("i", "1")
+	rwI, nrwI, ctlI := loopBodies("j", "i")
+	inner := append(append(append([]string{}, rwI...), nrwI...), ctlI...)
+	outerExtra := []string{"", rwO[1], nrwO[0], nrwO[9], ctlO[4]}
+	for _, hi := range []string{"for i = 3", "for i = 0:3"} {
+		for _, hj := range []string{"for j = 2", "for j = 1:3", "for 2"} {
+			for _, ib := range inner {
+				for ei, ex := range outerExtra {
+					if !c.Thorough() && ei > 1 && c.R.Pct(60) {
+						continue
+					}
+					body := hi + " { " + hj + " { " + ib + " }"
+					if ex != "" {
+						body += "; " + ex
+					}
+					body += " }"
+					pl := loopPlacements(body)
+					for pi, src := range pl {
+						if !c.Thorough() && pi > 1 && c.R.Pct(70) {
+							continue
+						}
+						check(c, "loops2", src, o)
+					}
+				}
+			}
+		}
+	}
+	// single loops with every body (the non nested base case), directly and twice
+	for _, ib := range append(append(append([]string{}, rwO...), nrwO...), ctlO...) {
+		for _, h := range []string{"for i = 3", "for i = 0:3", "for i := 2"} {
+			for _, src := range loopPlacements(h + " { " + ib + " }") {
+				check(c, "loops1", src, o)
+			}
+		}
+	}
+	// random: depth 1..5, mixed headers, same-variable shadowing, every placement, repeated sequences
+	n := 1500
+	if c.Thorough() {
+		n = 60000
+	}
+	for i := 0; i < n; i++ {
+		depth := 1 + c.R.Intn(5)
+		body := nestLoops(c.R, depth, func(v, ov string) string {
+			rw, nrw, ctl := loopBodies(v, ov)
+			all := append(append(append([]string{}, rw...), nrw...), ctl...)
+			if c.R.Pct(50) {
+				return nrw[c.R.Intn(len(nrw))]
+			}
+			return all[c.R.Intn(len(all))]
+		}, c.R.Pct(25))
+		if c.R.Pct(30) { // a sequence of loops in the same environment (more than NumRegisters of them sometimes)
+			k := 2 + c.R.Intn(9)
+			seq := []string{body}
+			for j := 1; j < k; j++ {
+				seq = append(seq, nestLoops(c.R, 1+c.R.Intn(3), func(v, ov string) string {
+					rw, nrw, _ := loopBodies(v, ov)
+					if c.R.Bool() {
+						return rw[c.R.Intn(len(rw))]
+					}
+					return nrw[c.R.Intn(len(nrw))]
+				}, false))
+			}
+			body = strings.Join(seq, "; ")
+		}
+		pl := loopPlacements(body)
+		check(c, "loopsN", pl[c.R.Intn(len(pl))], o)
+	}
+}
+
 // ---------------------------------------------------------------- wild grammar-generated programs
 type wild struct {
 	c     *Ctx
@@ -1108,7 +1262,11 @@ func runC07(c *Ctx) {
 		"x=[1,2,3]*6148914691236517206", "0:4611686018427387904", "9223372036854775807:-2", "func f(n){g=func(n){n};n};f(1)", "for n=0:3{func(n){n}}",
 		`quote(unquote("a"))`, `m=macro(a){quote("s" | unquote("str"))};m(1)`, `regsub("a","b")`, "a[0]=macro(x){x}", "a.b=macro(x){x}", `"s"=macro(x){x}`,
 		"[]*3", "quote(1)==quote(2)", "{quote(1):1}", "min(quote(1),quote(2))",
-		"func f(a,b,c,d,e,f,g,h,i){a+i};f(1,2,3,4,5,6,7,8,9)"}
+		"func f(a,b,c,d,e,f,g,h,i){a+i};f(1,2,3,4,5,6,7,8,9)",
+		// register stack: a rewritable counted loop around one whose body cannot be rewritten (seeded regression 1)
+		"for i = 3 { for j = 2 { j++ } }", "for i = 3 { for j = 2 { --j } }", "for i = 3 { for j = 2 { j(1) } }",
+		"for i = 3 { for j = 2 { j = 5 } }", "for i = 3 { for j = 2 { f = func(){j} } }", "func lf(){ for i = 3 { for j = 2 { j++ } } }; lf()",
+		"for i = 3 { for j = 2 { for k = 2 { k++ } } }", "for i = 3 { for j = 2 { j++; break } }; for i = 2 { i }"}
 	for _, s := range corpus {
 		check(c, "corpus", s, std)
 		evalOneAgrees(c, s)
@@ -1263,6 +1421,9 @@ func runC07(c *Ctx) {
 
 	// 3. type-directed programs with wrong operand kinds and boundary operands
 	typeDirected(c)
+
+	// 3b. nested counted loops with rewritable and non-rewritable bodies (register stack balance)
+	nestedLoops(c)
 
 	// 4. builtin / extension sweep
 	sweep(c)
